@@ -277,3 +277,8 @@ func (ex *Exec) PtrToNewObject(g *ssa.Global, content *Cell) *Cell {
 	o := ex.newObj(g.Name()+"*", et, Origin{Kind: "global", Root: globalKey(g)}, content)
 	return &Cell{V: &Ptr{Obj: o}}
 }
+
+// CallClosure invokes a function value from a model (e.g. a builder continuation).
+func (ex *Exec) CallClosure(c *CallCtx, cl *Closure, args []Val) Val {
+	return ex.callFn(c.Frame, c.St, cl.Fn, args, cl.Free, c.Instr)
+}
